@@ -12,6 +12,8 @@ def both(path):
     open(path, "w").write(out)
 for p in ["coq/Model/Exec.v", "coq/_CoqProject", "tools/gen_manifest.py", ".gitignore", "harness/README.md"]:
     if os.path.exists(p): both(p)
+e = open("coq/Model/Exec.v").read().replace("From PV Require Export Model.ComponentsX.\n", "")
+open("coq/Model/Exec.v", "w").write(e)
 # _CoqProject: drop duplicate lines keeping first occurrence
 lines = open("coq/_CoqProject").read().splitlines()
 seen, out = set(), []
